@@ -1,9 +1,10 @@
 (* C26 — content-filtered readers.  Model (definitions only) of
      dds/src/dcps/dcps_domain_participant/communication_methods.rs
-       process_user_defined_received_cache_changes, lines 46-367:
+       process_user_defined_received_cache_changes (as of commits c4677f2 and 88b96b4):
        the per-reader loop over the batch of cache changes taken with mem::take (l.55-59),
-       the filter evaluation of lines 87-199 (operator search l.122-134, member lookup
-       l.137-144, type-kind dispatch l.145-195) and the hand-over to add_reader_change;
+       the filter evaluation of lines 87-206 (operator search l.122-134, parameter selection
+       l.137-145, member lookup l.146-153, type-kind dispatch l.154-202) and the hand-over to
+       add_reader_change;
      dds/src/dcps/dcps_domain_participant/topic_entity.rs ContentFilteredTopicEntity
        (filter_expression : String, expression_parameters : Vec<String>).
    Strings are lists of UTF-8 bytes (Z); `String` comparison in Rust is byte-wise
@@ -106,15 +107,43 @@ Definition compare_int32 (o : cmp_op) (l r : Z) : bool :=
 Definition compare_string (o : cmp_op) (l r : str) : bool :=
   match o with OpEq => str_eqb l r | OpLe => str_leb l r end.
 
-(* l.122-134: first operator of [LessThan, Equal] whose text occurs; keeps the text LEFT of it,
-   the text right of the operator is thrown away (`(variable_name, _)`) *)
-Definition find_filter (expr : str) : option (str * cmp_op) :=
+(* l.122-134: first operator of [LessThan, Equal] whose text occurs: (text left of it, text right of it) *)
+Definition find_filter (expr : str) : option (str * str * cmp_op) :=
   match split_once (op_text OpLe) expr with
-  | Some (l, _) => Some (l, OpLe)
+  | Some (l, r) => Some (l, r, OpLe)
   | None => match split_once (op_text OpEq) expr with
-            | Some (l, _) => Some (l, OpEq)
+            | Some (l, r) => Some (l, r, OpEq)
             | None => None
             end
+  end.
+
+(* <usize as FromStr>::from_str (64-bit): optional single '+', at least one digit, only ASCII digits,
+   overflow is an error *)
+Definition parse_usize (s : str) : option Z :=
+  match s with
+  | [] => None
+  | c :: t =>
+      let ds := if c =? 43 then t else s in
+      match ds with
+      | [] => None
+      | _ => match digits_val 0 ds with
+             | Some v => if v <=? u64_max then Some v else None
+             | None => None
+             end
+      end
+  end.
+
+(* l.137-145: parameter.trim().strip_prefix('%').and_then(|n| n.parse::<usize>().ok())
+              .and_then(|n| expression_parameters.get(n)) *)
+Definition param_of (params : list str) (rhs : str) : option str :=
+  match trim rhs with
+  | c :: ds => if c =? 37 then
+                 match parse_usize ds with
+                 | Some n => nth_error params (Z.to_nat n)
+                 | None => None
+                 end
+               else None
+  | [] => None
   end.
 
 Record cft : Type := mkCft { f_expr : str; f_params : list str }.
@@ -123,33 +152,29 @@ Inductive outcome : Type := Pass | Fail | Error.
 Definition of_bool (b : bool) : outcome := if b then Pass else Fail.
 
 Definition site_todo : Z := 1.      (* todo!() arm of the kind match *)
-Definition site_index : Z := 2.     (* expression_parameters[0] on an empty Vec *)
 Definition site_expect : Z := 3.    (* .parse().expect("valid number") *)
 
 (* outcome for one ALIVE change of a reader on a content-filtered topic:
    Pass  = falls through to add_reader_change,
-   Fail  = comparison false            -> `continue 'data_readers` (l.158, l.180)
-   Error = no operator / unknown member -> `continue 'data_readers` (l.140, l.143, l.197) *)
+   Fail  = comparison false -> `continue` (next change of the batch)
+   Error = no operator / right side not a usable %n / unknown member -> `continue` *)
 Definition eval_code (f : cft) (s : sample) : res outcome :=
   match find_filter (f_expr f) with
   | None => Ok Error
-  | Some (var, o) =>
-      match lookup (trim var) s with
+  | Some (var, rhs, o) =>
+      match param_of (f_params f) rhs with
       | None => Ok Error
-      | Some (VInt32 z) =>
-          match f_params f with
-          | [] => Panic site_index
-          | p0 :: _ => match parse_i32 p0 with
-                       | None => Panic site_expect
-                       | Some n => Ok (of_bool (compare_int32 o z n))
-                       end
+      | Some pv =>
+          match lookup (trim var) s with
+          | None => Ok Error
+          | Some (VInt32 z) =>
+              match parse_i32 pv with
+              | None => Panic site_expect
+              | Some n => Ok (of_bool (compare_int32 o z n))
+              end
+          | Some (VString x) => Ok (of_bool (compare_string o x pv))
+          | Some (VUnsupported _ _) => Panic site_todo
           end
-      | Some (VString x) =>
-          match f_params f with
-          | [] => Panic site_index
-          | p0 :: _ => Ok (of_bool (compare_string o x p0))
-          end
-      | Some (VUnsupported _ _) => Panic site_todo
       end
   end.
 
@@ -160,11 +185,16 @@ Definition eval_code (f : cft) (s : sample) : res outcome :=
    integer parameter not an i32 literal). *)
 Definition parse_index (s : str) : option nat :=
   match s with
-  | 37 :: ds => match ds with
-                | [] => None
-                | _ => match digits_val 0 ds with Some v => Some (Z.to_nat v) | None => None end
-                end
-  | _ => None
+  | c :: ds => if c =? 37 then
+                 match ds with
+                 | [] => None
+                 | _ => match digits_val 0 ds with
+                        | Some v => if v <=? u64_max then Some (Z.to_nat v) else None
+                        | None => None
+                        end
+                 end
+               else None
+  | [] => None
   end.
 
 Definition spec_parts (expr : str) : option (str * cmp_op * nat) :=
@@ -227,57 +257,46 @@ Definition classify (flt : option cft) (c : change) : res outcome :=
   | Some f => if ch_alive c then eval_code f (ch_data c) else Ok Pass
   end.
 
-(* `for cache_change in changes` (l.59) for ONE reader.  outer = true is the code as written:
-   a rejected change executes `continue 'data_readers`, i.e. leaves the loop, and the rest of the
-   batch (already moved out of the transport reader by mem::take) is dropped.
-   outer = false is the proposed patch (`continue`). *)
-Fixpoint reader_loop_gen (outer : bool) (flt : option cft) (batch : list change) (st : reader_st)
-  : res reader_st :=
+(* `for cache_change in changes` (l.59) for ONE reader: a change the filter rejects executes
+   `continue` — the next change of the batch is processed *)
+Fixpoint reader_loop (flt : option cft) (batch : list change) (st : reader_st) : res reader_st :=
   match batch with
   | [] => Ok st
   | c :: rest =>
       match classify flt c with
-      | Ok Pass => reader_loop_gen outer flt rest (add_reader_change c st)
-      | Ok _ => if outer then Ok st else reader_loop_gen outer flt rest st
+      | Ok Pass => reader_loop flt rest (add_reader_change c st)
+      | Ok _ => reader_loop flt rest st
       | Err e => Err e
       | Panic p => Panic p
       end
   end.
 
-Definition reader_loop := reader_loop_gen true.            (* the code *)
-Definition reader_loop_patched := reader_loop_gen false.   (* proposed fix *)
-
 (* the readers of the subscriber, in data_reader_list order; every reader matched with the writer
    has received the same batch; a panic kills the worker *)
-Fixpoint readers_step_gen (outer : bool) (batch : list change) (rs : list (option cft * reader_st))
+Fixpoint readers_step (batch : list change) (rs : list (option cft * reader_st))
   : res (list (option cft * reader_st)) :=
   match rs with
   | [] => Ok []
   | (flt, st) :: t =>
-      st' <- reader_loop_gen outer flt batch st ;;
-      t' <- readers_step_gen outer batch t ;;
+      st' <- reader_loop flt batch st ;;
+      t' <- readers_step batch t ;;
       Ok ((flt, st') :: t')
   end.
 
 (* one worker step per arrival group (datagram) *)
-Fixpoint run_groups_gen (outer : bool) (groups : list (list change)) (rs : list (option cft * reader_st))
+Fixpoint run_groups (groups : list (list change)) (rs : list (option cft * reader_st))
   : res (list (option cft * reader_st)) :=
   match groups with
   | [] => Ok rs
-  | g :: t => rs' <- readers_step_gen outer g rs ;; run_groups_gen outer t rs'
+  | g :: t => rs' <- readers_step g rs ;; run_groups t rs'
   end.
-Definition run_groups := run_groups_gen true.
-Definition run_groups_patched := run_groups_gen false.
 
 (* single reader, for the theorems *)
-Fixpoint run_reader_gen (outer : bool) (flt : option cft) (groups : list (list change)) (st : reader_st)
-  : res reader_st :=
+Fixpoint run_reader (flt : option cft) (groups : list (list change)) (st : reader_st) : res reader_st :=
   match groups with
   | [] => Ok st
-  | g :: t => st' <- reader_loop_gen outer flt g st ;; run_reader_gen outer flt t st'
+  | g :: t => st' <- reader_loop flt g st ;; run_reader flt t st'
   end.
-Definition run_reader := run_reader_gen true.
-Definition run_reader_patched := run_reader_gen false.
 
 (* ------------------------------------------------------------------ oracles (bool) *)
 Definition passes (flt : option cft) (c : change) : bool :=
@@ -292,17 +311,6 @@ Fixpoint presented (l : list item) : list sample :=
   | IData s :: t => s :: presented t
   | INoData _ :: t => presented t
   end.
-
-(* after the first rejected change of the batch there is still a passing one *)
-Fixpoint drop_while_pass (flt : option cft) (b : list change) : list change :=
-  match b with
-  | [] => []
-  | c :: t => if passes flt c then drop_while_pass flt t else b
-  end.
-Definition lossy_batch (flt : option cft) (b : list change) : bool :=
-  existsb (passes flt) (drop_while_pass flt b).
-Definition lossy (flt : option cft) (groups : list (list change)) : bool :=
-  existsb (lossy_batch flt) groups.
 
 Fixpoint sample_eqb (a b : sample) : bool :=
   match a, b with
